@@ -39,6 +39,16 @@ func genCase(t *rapid.T) arith.Case {
 			n = rapid.IntRange(1, 30).Draw(t, "pplen2")
 		}
 		r := gen.DigitsN(t, n, 9, "pproot") // random digits
+		if len(r) < 4 && c.Ctx.P >= 4 && gen.Pick(t, 2, "pplong") == 0 {
+			r += gen.DigitsN(t, 4-len(r), 9, "ppmore")
+		}
+		if len(r) >= 3 && gen.Pick(t, 2, "pplow") == 0 {
+			// roots in the lowest part of their decade (1.00.. to 1.19..), where a unit of the last
+			// place is largest relative to the value and an iteration that stops on a relative
+			// criterion is furthest from the root in units
+			r = "1" + []string{"0", "0", "0", "1"}[gen.Pick(t, 4, "pplow2")] + r[2:]
+			c.Note = "low-decade-root"
+		}
 		rb, _ := new(big.Int).SetString(r, 10)
 		if rb.Sign() == 0 {
 			rb.SetInt64(7)
@@ -142,6 +152,9 @@ func check(c arith.Case, st *core.Stats) error {
 	switch {
 	case fits:
 		st.NonTrivial("perfect-cube-root-fits")
+		if c.Note == "low-decade-root" {
+			st.Class("perfect-cube-root-in-the-lowest-fifth-of-its-decade")
+		}
 		if ref.Mode(c.Ctx.Rounding) == "up" || ref.Mode(c.Ctx.Rounding) == "ceiling" || ref.Mode(c.Ctx.Rounding) == "05up" {
 			st.Class("perfect-cube-directed-mode")
 		}
